@@ -39,12 +39,15 @@ func (a *AttrConditionPlanner) Process(ctx *shared.PlannerContext) (sql.ISelect,
 		return nil, err
 	}
 
-	err = a.aggregator(main)
+	where, err := a.aggregator(main)
 	if err != nil {
 		return nil, err
 	}
 
-	res := main.AndWhere(sql.Or(a.where...)).AndHaving(having)
+	res := main.AndHaving(having)
+	if len(where) > 0 {
+		res = res.AndWhere(sql.Or(where...))
+	}
 
 	if ctx.RandomFilter.Max != 0 && len(ctx.CachedTraceIds) > 0 {
 		rawCachedTraceIds := make([]sql.SQLObject, len(ctx.CachedTraceIds))
@@ -70,10 +73,15 @@ func (a *AttrConditionPlanner) Process(ctx *shared.PlannerContext) (sql.ISelect,
 	return res, nil
 }
 
+// maybeCreateWhere builds the per-term conditions and the row pre-filter. Index rows can
+// only be pre-filtered when every term is an attribute term (a span then needs a row
+// satisfying one of them to match at all). A term on duration holds on every row of a
+// span, so with such a term all rows of the time window have to be read.
 func (a *AttrConditionPlanner) maybeCreateWhere() error {
 	if len(a.sqlConds) > 0 {
 		return nil
 	}
+	preFilter := true
 	for _, t := range a.Terms {
 		sqlTerm, err := a.getTerm(t)
 		if err != nil {
@@ -85,23 +93,31 @@ func (a *AttrConditionPlanner) maybeCreateWhere() error {
 			!strings.HasPrefix(t.Label, "resource.") &&
 			!strings.HasPrefix(t.Label, ".") &&
 			t.Label != "name" {
+			preFilter = false
 			continue
 		}
 		a.where = append(a.where, sqlTerm)
 	}
+	if !preFilter {
+		a.where = nil
+	}
 	return nil
 }
 
-func (a *AttrConditionPlanner) aggregator(main sql.ISelect) error {
+// aggregator adds the aggregated value to the select list and returns the row pre-filter
+// of this request (the planner's own list is left untouched so that Process can be called
+// again).
+func (a *AttrConditionPlanner) aggregator(main sql.ISelect) ([]sql.SQLCondition, error) {
+	where := a.where
 	if a.AggregatedAttr == "" {
-		return nil
+		return where, nil
 	}
 
 	s := main.GetSelect()
 	if a.AggregatedAttr == "duration" {
 		s = append(s, sql.NewSimpleCol("toFloat64(duration)", "agg_val"))
 		main.Select(s...)
-		return nil
+		return where, nil
 	}
 
 	if strings.HasPrefix(a.AggregatedAttr, "span.") {
@@ -115,8 +131,11 @@ func (a *AttrConditionPlanner) aggregator(main sql.ISelect) error {
 	}
 	s = append(s, sql.NewCol(&sqlAttrValue{a.AggregatedAttr}, "agg_val"))
 	main.Select(s...)
-	a.where = append(a.where, sql.Eq(sql.NewRawObject("key"), sql.NewStringVal(a.AggregatedAttr)))
-	return nil
+	if len(where) > 0 {
+		where = append(append([]sql.SQLCondition{}, where...),
+			sql.Eq(sql.NewRawObject("key"), sql.NewStringVal(a.AggregatedAttr)))
+	}
+	return where, nil
 }
 
 func (a *AttrConditionPlanner) getCond(c *condition) (sql.SQLCondition, error) {
